@@ -30,7 +30,7 @@ For each k write into {out}/ :
   change<k>.diff   `git diff` of the worktree for that change alone (applies with `git apply` to a clean checkout of the same commit; make change 1, save the diff, `git checkout -- .`, then make change 2),
   demo<k>.py       a stand-alone program (run as `PYTHONPATH=<tree> /venv/bin/python demo<k>.py`, exit status 0 = property holds on the scenarios it tries, non-zero = violated, printing what went wrong) that passes on the unchanged tree and fails on the changed tree; it must exercise the PUBLIC behaviour the property talks about, not poke at the edited lines,
   meta<k>.json     {{"summary": "what was changed and how it is disguised", "breaks": "which clause of the property fails and how", "needs_to_manifest": "the specific input/sequence/interleaving needed", "suite_result_with_change": "N passed, M failed"}}.
-Verify everything yourself (suite unchanged, demo passes without / fails with the change) before finishing, leave the worktree clean (`git -C {wt} checkout -- .`; no stray files), and answer with a short description of the two changes.
+Never use `git stash` (the stash is shared with other people's worktrees of the same repository): to get back to a clean tree save your diff to a file, `git checkout -- .`, and re-apply it with `git apply`. Verify everything yourself (suite unchanged, demo passes without / fails with the change) before finishing, leave the worktree clean (`git -C {wt} checkout -- .`; no stray files), and answer with a short description of the two changes.
 
 PROPERTY ({pid}):
 {text}
